@@ -418,6 +418,24 @@ Proof.
 Qed.
 Print Assumptions flag_trust_sound_partial.
 
+(* ---- 7. document(): the producer is an insertion history (translator fact), so for any references - repeated,
+        non-adjacent, with fragment identifiers, over any documents - the result has no node twice, keeps each
+        document's nodes together, is sorted inside each document, holds exactly the resolved nodes, and its
+        document-order flag is honest (so unions of document() results are covered by union_multi_document) *)
+Theorem document_function_sound : forall W refs, forallb (wvalid W) refs = true ->
+  exists r, functionDocument W refs = Some (NL r DocOrder) /\ honest_multi W (NL r DocOrder) = true /\
+            forallb (wvalid W) r = true /\ NoDup r /\ groupedb (map fst r) = true /\ (forall m, In m r <-> In m refs).
+Proof.
+  intros W refs H. unfold functionDocument. change document_function_inserts_in_doc_order with true. cbv iota.
+  destruct (add_history_multi_document W refs [] H eq_refl eq_refl) as (r & E & G & N & Gr & _ & I).
+  assert (V : forallb (wvalid W) r = true).
+  { apply forallb_forall. intros m Hm. apply I in Hm. destruct Hm as [[]|Hm]. rewrite forallb_forall in H. auto. }
+  exists r. rewrite E. unfold honest_multi. simpl. repeat split; try assumption.
+  - intro Hm. apply I in Hm. destruct Hm as [[]|Hm]. exact Hm.
+  - intro Hm. apply I. right. exact Hm.
+Qed.
+Print Assumptions document_function_sound.
+
 (* ---- non-vacuity: the hypotheses are satisfiable, on an indexed and on a non-indexed document *)
 Definition T1 : tree := Node 0 [Node 2 [Node 0 []; Node 1 [Node 0 []]; Node 0 []]].
 Definition Wi : world := [(T1, true)].
@@ -447,6 +465,10 @@ Example producers_example :
   step_finish (findPreceedingSiblings T1 (fun _ => true) (snd e_c2)) = ([[SC 0; SC 0]; [SC 1; SC 0]], DocOrder) /\
   findChildren T1 (fun n => negb (rnode_eqb n [SC 1; SC 0])) [SC 0] = ([[SC 0; SC 0]; [SC 2; SC 0]], DocOrder).
 Proof. vm_compute. repeat split. Qed.
+
+Example document_function_example :
+  functionDocument W2 [(0, []); y1; (0, []); x0; (1, []); z0] = Some (NL [(0, []); x0; z0; (1, []); y1] DocOrder).
+Proof. vm_compute. reflexivity. Qed.
 
 Example union_operands_satisfiable :
   operands_ok Wi 0 [NL [e_c2; e_a1] Unknown; NL [e_ca; e_c0] RevOrder; NL [e_a1; e_c2] DocOrder] = true /\
